@@ -359,6 +359,10 @@ def c12_corpus(seed, tier):
                                     {"op": "jit_new", "g": 1, "t": 1}, {"op": "set_rounds", "g": 1, "r": 2},
                                     {"op": "next_u32", "g": 1}, {"op": "set_rounds", "g": 1, "r": 0},
                                     {"op": "next_u32", "g": 1}, {"op": "next_u64", "g": 1}])
+    # the full basis of the LFSR fold and of the stir step (the extraction schedule of C15): binds
+    # Jitter.tla's Lfsr and Stir to the code on a basis of both arguments
+    for c in c15_schedule(seed, "quick").cases:
+        S.case("jitter basis images (hook)", c["ops"])
     return S
 
 
@@ -582,4 +586,40 @@ def c13_corpus(seed, tier, cases):
                 t = rng.getrandbits(64) if rng.random() < 0.02 else t + rng.randrange(1, 5000)
             rd.append(t & M64)
         add("tt random %s #%d" % (style, i), rd)
+    return S
+
+
+# ---------------------------------------------------------------- C15: extraction of the pool maps
+def c15_schedule(seed, tier):
+    rng = random.Random(seed * 1000003 + 15)
+    S = Sched()
+    C = 0x0123456789ABCDEF       # the fixed time value for pool -> Lfsr(pool, c)
+    P0 = 0xDEADBEEF0BADF00D      # the fixed pool value for time -> Lfsr(p0, time)
+    readings, ops = [], []
+
+    def fold(tag, pool, time):
+        readings.extend([time, (time + 1) & M64])
+        ops.append({"op": "set_pool", "g": 1, "pool": u64(pool)})
+        ops.append({"op": "timer_stats", "g": 1, "var": False, "tag": tag})
+
+    def stir(tag, pool):
+        ops.append({"op": "set_pool", "g": 1, "pool": u64(pool)})
+        ops.append({"op": "stir", "g": 1, "tag": tag})
+    for i in range(-1, 64):
+        fold(["lp", i], 0 if i < 0 else 1 << i, C)
+    for j in range(-1, 64):
+        fold(["lt", j], P0, 0 if j < 0 else 1 << j)
+    for i in range(-1, 64):
+        stir(["st", i], 0 if i < 0 else 1 << i)
+    # NB: the linear part of "lp"/"lt" is taken relative to f(0) recorded with the same fixed argument
+    n = 40 if tier == "quick" else 1000
+    for k in range(n):
+        a, b = rng.getrandbits(64), rng.getrandbits(64)
+        for which, v in (("a", a), ("b", b), ("ab", a ^ b)):
+            fold(["aff", "lp", k, which], v, C)
+            fold(["aff", "lt", k, which], P0, v)
+            stir(["aff", "st", k, which], v)
+    head = [{"op": "timer", "t": 1, "readings": [u64(x) for x in readings], "cont": [u64(1)]},
+            {"op": "jit_new", "g": 1, "t": 1}]
+    S.case("pool map extraction", head + ops)
     return S
